@@ -783,61 +783,76 @@ def doneLookups (a : Actor) (now : Nat) : List (Id × List Node) :=
   a.core.iter.filterMap fun p =>
     if p.2.isDone a.sock now then some (p.1, closestOfDone a.core p.2) else none
 
+/-- `start_put_queries`, for one finished lookup: the put waiting on it (if any) sends its requests -/
+def startPutOne (now : Nat) (acc : Actor × List (Id × Option PutErr)) (d : Id × List Node) :
+    Actor × List (Id × Option PutErr) :=
+  match alGet acc.1.core.puts d.1 with
+  | some e =>
+    match (startPut acc.1 e d.2 now).2.2 with
+    | .error err =>
+      ({ (startPut acc.1 e d.2 now).1 with
+           core := { (startPut acc.1 e d.2 now).1.core with
+                     puts := alSet (startPut acc.1 e d.2 now).1.core.puts d.1 (startPut acc.1 e d.2 now).2.1 } },
+       acc.2 ++ [(d.1, some err)])
+    | .ok () =>
+      ({ (startPut acc.1 e d.2 now).1 with
+           core := { (startPut acc.1 e d.2 now).1.core with
+                     puts := alSet (startPut acc.1 e d.2 now).1.core.puts d.1 (startPut acc.1 e d.2 now).2.1 } },
+       acc.2)
+  | none => acc
+
 /-- `start_put_queries` -/
 def startPuts (a : Actor) (now : Nat) (doneIter : List (Id × List Node)) (donePuts : List (Id × Option PutErr)) :
     Actor × List (Id × Option PutErr) :=
-  doneIter.foldl (fun (acc : Actor × List (Id × Option PutErr)) (d : Id × List Node) =>
-    let a := acc.1
-    match alGet a.core.puts d.1 with
-    | some e =>
-      let (a, e, r) := startPut a e d.2 now
-      let a := { a with core := { a.core with puts := alSet a.core.puts d.1 e } }
-      (match r with
-       | .error err => (a, acc.2 ++ [(d.1, some err)])
-       | .ok () => (a, acc.2))
-    | none => acc) (a, donePuts)
+  doneIter.foldl (startPutOne now) (a, donePuts)
+
+/-- `cleanup_done_queries`, for one finished lookup: unregister it, cache it, count its votes -/
+def cleanupOneLookup (acc : Core × Option Addr) (d : Id × List Node) : Core × Option Addr :=
+  match alGet acc.1.iter d.1 with
+  | some q =>
+    match (updateAddressVotes (cacheQuery { acc.1 with iter := alRemove acc.1.iter d.1 } q d.2) q).2 with
+    | some x => ((updateAddressVotes (cacheQuery { acc.1 with iter := alRemove acc.1.iter d.1 } q d.2) q).1, some x)
+    | none => ((updateAddressVotes (cacheQuery { acc.1 with iter := alRemove acc.1.iter d.1 } q d.2) q).1, acc.2)
+  | none => acc
+
+def removePut (c : Core) (d : Id × Option PutErr) : Core := { c with puts := alRemove c.puts d.1 }
 
 /-- `cleanup_done_queries`: the new core and the address to ping, if the votes changed it -/
 def cleanupDone (c : Core) (doneIter : List (Id × List Node)) (donePuts : List (Id × Option PutErr)) :
     Core × Option Addr :=
-  let (core, toPing) := doneIter.foldl (fun (acc : Core × Option Addr) (d : Id × List Node) =>
-    match alGet acc.1.iter d.1 with
-    | some q =>
-      let c := { acc.1 with iter := alRemove acc.1.iter d.1 }
-      let c := cacheQuery c q d.2
-      let (c, p) := updateAddressVotes c q
-      (c, match p with
-        | some x => some x
-        | none => acc.2)
-    | none => acc) (c, none)
-  (donePuts.foldl (fun (c : Core) d => { c with puts := alRemove c.puts d.1 }) core, toPing)
+  (donePuts.foldl removePut (doneIter.foldl cleanupOneLookup (c, none)).1,
+   (doneIter.foldl cleanupOneLookup (c, none)).2)
 
 /-- what a caller parked on a finished lookup receives -/
 def closingEvent (nodes : List Node) : Sender → Event
   | .closestNodes c => .nodes c nodes
   | .peers c | .signedPeers c | .mutable c | .immutable c => .closed c
 
+/-- answer and un-park the callers of one finished lookup -/
+def releaseGetOne (a : Actor) (d : Id × List Node) : Actor :=
+  match alGet a.getSenders d.1 with
+  | some senders =>
+    { a with getSenders := alRemove a.getSenders d.1, events := a.events ++ senders.map (closingEvent d.2) }
+  | none => a
+
 /-- answer the callers of finished lookups -/
-def releaseGetCallers (a : Actor) (doneIter : List (Id × List Node)) : Actor :=
-  doneIter.foldl (fun (a : Actor) (d : Id × List Node) =>
-    match alGet a.getSenders d.1 with
-    | some senders =>
-      { a with getSenders := alRemove a.getSenders d.1, events := a.events ++ senders.map (closingEvent d.2) }
-    | none => a) a
+def releaseGetCallers (a : Actor) (doneIter : List (Id × List Node)) : Actor := doneIter.foldl releaseGetOne a
 
 def putOutcome (d : Id × Option PutErr) : Except PutErr Id :=
   match d.2 with
   | some e => .error e
   | none => .ok d.1
 
+/-- answer and un-park the callers of one finished put -/
+def releasePutOne (a : Actor) (d : Id × Option PutErr) : Actor :=
+  match alGet a.putSenders d.1 with
+  | some cs =>
+    { a with putSenders := alRemove a.putSenders d.1,
+             events := a.events ++ cs.map fun c => Event.putResult c (putOutcome d) }
+  | none => a
+
 /-- answer the callers of finished puts -/
-def releasePutCallers (a : Actor) (donePuts : List (Id × Option PutErr)) : Actor :=
-  donePuts.foldl (fun (a : Actor) (d : Id × Option PutErr) =>
-    match alGet a.putSenders d.1 with
-    | some cs =>
-      { a with putSenders := alRemove a.putSenders d.1,
-               events := a.events ++ cs.map fun c => Event.putResult c (putOutcome d) }
-    | none => a) a
+def releasePutCallers (a : Actor) (donePuts : List (Id × Option PutErr)) : Actor := donePuts.foldl releasePutOne a
 
 /-- the part of `tick` after `recv_from` returned -/
 def afterRecv (a : Actor) (env : Env) (dgram : Option (Message × Addr)) : Actor :=
